@@ -71,7 +71,7 @@ Definition run_z2d (z : Z) : string := match z2d z with Ok s => tohex (le_bytes 
 Definition run_z2s (z : Z) : string := match z2d z with Ok d => run_d2s d | _ => "E" end.
 
 (** ---- container glue (null codec inside the model; other codecs are re-framed by the harness) ---- *)
-From FA Require Import model.Container.
+From FA Require Import model.Container model.ContainerPy.
 
 Definition idc (b : bytes) : bytes := b.
 
@@ -81,25 +81,20 @@ Inductive hop :=
 | HBlockRaw (n : Z) (raw : bytes)  (* write_block with a donor block: record count and decompressed payload *)
 | HReopen (si : Z).
 
+Definition show_status (p : pstatus) : string :=
+  match p with POk => "ok" | PRaised => "raised" | PUnspecified => "U" | PNoFuel => "FUEL" end.
+
+(* one harness-level operation = the model's Python-level step (model/ContainerPy.v); a donor block arrives
+   as its record count and decompressed payload, which is what wstep's OBlock uses of its layouts *)
 Definition hstep (wo : wopts) (validator : bool) (e : env) (s : schema) (sync : bytes)
                  (st : wstate) (o : hop) : wstate * string :=
   match o with
-  | HWrite v =>
-      let accepted :=
-        if validator then match validate FUEL wo e s (Some v) with Ok true => true | _ => false end else true in
-      if accepted then
-        match elab FUEL wo e s v with
-        | WOk a => (wstep idc sync st (OWrite a), "ok")
-        | WErr => (wstep idc sync st OWriteBad, "raised")
-        | WUnspec => (st, "U")
-        | WFuel => (st, "FUEL")
-        end
-      else (wstep idc sync st OWriteBad, "raised")
-  | HFlush => (wstep idc sync st OFlush, "ok")
+  | HWrite v => let (st', p) := pstep idc sync FUEL wo validator e s st (PWrite v) in (st', show_status p)
+  | HFlush => let (st', p) := pstep idc sync FUEL wo validator e s st PFlush in (st', show_status p)
   | HBlockRaw n raw =>
       let st' := flush idc sync st in
       (mkW (out st' ++ block_bytes idc sync n raw)%list [] 0 (sint st), "ok")
-  | HReopen si => (wstep idc sync st (OReopen si), "ok")
+  | HReopen si => let (st', p) := pstep idc sync FUEL wo validator e s st (PReopen si) in (st', show_status p)
   end.
 
 (* after every operation: its status and the bytes it appended to the stream *)
